@@ -588,6 +588,9 @@ class CallMixin(object):
           fv = self.read_attr(base, meth, st)
           yield from self.call_opaque(fv, args, kw, st, star, dstar)
           return
+        if self.mode == 'event':
+          yield from self.call_opaque(VBound(base, meth), args, kw, st, star, dstar)
+          return
         raise Unsupported('method %s.%s has no contract, source or pure declaration' % (base.ty.name, meth))
       if k in ('any', 'callable', 'opt'):
         rt = self.pure_ret_type('method.' + meth)
